@@ -259,3 +259,34 @@ package singlylinkedlist
 //@     invariant forall j :: old(iterator.index) < j && j <= iterator.index && j < len(Seq(iterator.list)) ==> !f(j, Seq(iterator.list)[j])
 //@     decreases len(Seq(iterator.list)) - iterator.index
 
+// ---- JSON (C11 round trip, C12 replace / sound / atomic) ----
+
+//@ func List.ToJSON
+//@   requires Inv(list)
+//@   modifies nothing
+//@   ensures [C11 C17 C18] result1 == nil && fresh(arr(result0)) && jarr_kind(result0, list.first.value) == 3 && jarr_len(result0, list.first.value) == len(Seq(list))
+//@     && (forall i :: 0 <= i && i < len(Seq(list)) ==> jarr_at(result0, i, list.first.value) == Seq(list)[i])
+
+//@ func List.MarshalJSON
+//@   requires Inv(list)
+//@   modifies nothing
+//@   ensures [C11 C17 C18] result1 == nil && fresh(arr(result0)) && jarr_kind(result0, list.first.value) == 3 && jarr_len(result0, list.first.value) == len(Seq(list))
+//@     && (forall i :: 0 <= i && i < len(Seq(list)) ==> jarr_at(result0, i, list.first.value) == Seq(list)[i])
+
+//@ func List.FromJSON
+//@   requires Inv(list)
+//@   modifies list.first, list.last, list.size, list.nodes
+//@   modifies each e like list.first where e.owner == list : e.next
+//@   ensures [C12 C17] Inv(list) && (result == nil <==> jarr_kind(data, list.first.value) >= 2)
+//@   ensures [C12] atomic: result != nil ==> Seq(list) == old(Seq(list))
+//@   ensures [C11 C12] loaded: jarr_kind(data, list.first.value) == 3 ==> len(Seq(list)) == jarr_len(data, list.first.value) && (forall i :: 0 <= i && i < len(Seq(list)) ==> Seq(list)[i] == jarr_at(data, i, list.first.value))
+//@   ensures [C12] null: jarr_kind(data, list.first.value) == 2 ==> len(Seq(list)) == 0
+
+//@ func List.UnmarshalJSON
+//@   requires Inv(list)
+//@   modifies list.first, list.last, list.size, list.nodes
+//@   modifies each e like list.first where e.owner == list : e.next
+//@   ensures [C12 C17] Inv(list) && (result == nil <==> jarr_kind(bytes, list.first.value) >= 2)
+//@   ensures [C12] atomic: result != nil ==> Seq(list) == old(Seq(list))
+//@   ensures [C11 C12] loaded: jarr_kind(bytes, list.first.value) == 3 ==> len(Seq(list)) == jarr_len(bytes, list.first.value) && (forall i :: 0 <= i && i < len(Seq(list)) ==> Seq(list)[i] == jarr_at(bytes, i, list.first.value))
+//@   ensures [C12] null: jarr_kind(bytes, list.first.value) == 2 ==> len(Seq(list)) == 0
